@@ -389,6 +389,55 @@ Definition cpy_sync (y : cpy) (d : dev) (c : conn) : cpy * dev * conn :=
   let '(y1, d1, c1) := cpy_overflow y d c None in
   let (d2, c2) := dev_sync d1 c1 in (y1, d2, c2).
 
+(* ---------------------------------------------------------------- copy_buf exactly (src/http_response.cpp details::copy_buf)
+   buffer_ is a std::vector<char>; pbase/pptr/epptr are offsets into it.  cb_rpre is the content of buffer_[0 .. pptr) in
+   REVERSE order (so that storing is O(1)); buffer_[pptr ..) is zero: resize value-initialises and the put area is only
+   written at pptr.  When setp moves pptr forward over never-written bytes (growth branch: new pbase = old buffer_.size()),
+   those zero bytes become part of the content below pptr -- this is what happens if the put window does not end at
+   buffer_.size().  cb_null = (pptr() == 0): true only before the first overflow (overflow after getstr is not modelled).
+   The cpy record above abstracts this buffer (c_all = everything written); ProofsCb.v shows that the abstraction is
+   exact: getstr returns everything written, for every write sequence of any size. *)
+Record cbuf := mkCb { cb_null : bool; cb_rpre : bytes; cb_pptr : N; cb_bsize : N; cb_pbase : N; cb_epptr : N }.
+Definition cb0 : cbuf := mkCb true [] 0 0 0 0.
+Definition CB_INIT : N := 128.                                      (* buffer_.resize(128) *)
+Definition cb_grow_resize (size : N) : N := size * 2.                (* buffer_.resize(size * 2) *)
+Definition cb_grow_base (size : N) : N := size.                      (* setp(&buffer_[size], ...) *)
+Definition cb_grow_end (size : N) : N := size + size.                (* ... &buffer_[size] + size) *)
+Definition cb_getstr_n (bsize epptr pptr : N) : N := bsize - (epptr - pptr).   (* n = buffer_.size() - (epptr() - pptr()) *)
+(* the bytes pbase .. pptr, handed to out_->sputn *)
+Definition cb_forward (b : cbuf) : bytes := rev_append (firstn (N.to_nat (cb_pptr b - cb_pbase b)) (cb_rpre b)) [].   (* rev, linear *)
+Definition cb_store (b : cbuf) (x : N) : cbuf :=
+  mkCb (cb_null b) (x :: cb_rpre b) (cb_pptr b + 1) (cb_bsize b) (cb_pbase b) (cb_epptr b).
+(* overflow(c): returns the new state and what was forwarded to out_ *)
+Definition cb_overflow (b : cbuf) (ch : option N) : cbuf * bytes :=
+  let fwd := cb_forward b in
+  let b1 :=
+    if cb_null b then
+      let sz := if cb_bsize b =? 0 then CB_INIT else cb_bsize b in
+      mkCb false [] 0 sz 0 sz                                         (* setp(&buffer_[0], &buffer_[0] + buffer_.size()) *)
+    else if cb_pptr b =? cb_epptr b then
+      let size := cb_bsize b in
+      let base := cb_grow_base size in
+      mkCb false (repeat 0 (N.to_nat (base - cb_pptr b)) ++ cb_rpre b) base (cb_grow_resize size) base (cb_grow_end size)
+    else mkCb false (cb_rpre b) (cb_pptr b) (cb_bsize b) (cb_pptr b) (cb_epptr b) in   (* setp(pptr(), epptr()) *)
+  (match ch with Some x => cb_store b1 x | None => b1 end, fwd).
+Definition cb_sputc (b : cbuf) (x : N) : cbuf * bytes :=
+  if cb_pptr b <? cb_epptr b then (cb_store b x, []) else cb_overflow b (Some x).
+Fixpoint cb_xsputn (fuel : nat) (b : cbuf) (s : bytes) : cbuf * list bytes :=
+  match fuel with
+  | O => (b, [])
+  | S f =>
+    let k := N.min (cb_epptr b - cb_pptr b) (lenN s) in
+    let b1 := mkCb (cb_null b) (rev_append (takeN k s) (cb_rpre b)) (cb_pptr b + k) (cb_bsize b) (cb_pbase b) (cb_epptr b) in
+    match dropN k s with
+    | [] => (b1, [])
+    | x :: r => let (b2, fwd) := cb_overflow b1 (Some x) in let (b3, fs) := cb_xsputn f b2 r in (b3, fwd :: fs)
+    end
+  end.
+(* getstr(std::string &): the first n bytes of buffer_ *)
+Definition cb_getstr (b : cbuf) : bytes :=
+  takeN (cb_getstr_n (cb_bsize b) (cb_epptr b) (cb_pptr b)) (rev_append (cb_rpre b) [] ++ repeat 0 (N.to_nat (cb_bsize b - cb_pptr b))).
+
 (* ---------------------------------------------------------------- response + application script *)
 Inductive op :=
 | OWrite (s : bytes)          (* ostream::write *)
@@ -464,10 +513,23 @@ Definition new_dev (async : bool) : dev := mkDev async 0 0 [] async false false.
 Definition new_resp (async : bool) (base : headers) (defbuf : N) (version : bytes) : resp :=
   mkResp base None false false false (mkCpy [] [] 0 0) (new_dev async) defbuf version.
 (* one request: returns the final connection and the copied page (copied_data()) *)
+(* what copy_buf sees: every output operation of the script in order (out() installs it before the first one), then close *)
+Fixpoint cb_run (b : cbuf) (ops : list op) : cbuf :=
+  match ops with
+  | [] => b
+  | o :: t =>
+    cb_run (match o with
+            | OWrite s => fst (cb_xsputn (S (length s)) b s)
+            | OPut s => fold_left (fun b x => fst (cb_sputc b x)) s b
+            | OFlush => fst (cb_overflow b None)
+            | _ => b
+            end) t
+  end.
+Definition cb_page (ops : list op) : bytes := cb_getstr (fst (cb_overflow (cb_run cb0 ops) None)).   (* close(), copied_data() *)
 Definition run_request (async : bool) (base : headers) (defbuf : N) (version : bytes) (c : conn) (ops : list op) : conn * bytes :=
   let (r, c1) := run_ops (new_resp async base defbuf version) c ops in
   let (r2, c2) := finish r c1 in
-  (c2, c_all (r_cpy r2)).
+  (c2, if r_copy_on r2 then cb_page ops else []).
 Definition new_conn (p : proto) (http11 cka : bool) (rid : N) (server : bytes) (pending : bytes) (sched : list N) (log : list (N * N)) : conn :=
   mkConn (mkFmt p http11 cka rid server [] false false None 0 false) pending [] sched log false [].
 
